@@ -2,7 +2,7 @@
 import collections
 
 from checks.common import UdpCheck, Monitor, MTUS, QueueConservation
-from world.udpworld import ConnectionStatus, SERVER_ADDR, client_addr
+from world.udpworld import accepted, ConnectionStatus, SERVER_ADDR, client_addr
 
 CLIENT_DROP_S = 5.0       # fixed in ClientServerConnection.update
 
@@ -33,7 +33,7 @@ class TimingMonitor(Monitor):
         self.last_tx[k] = t
 
     def post_recv(self, conn, hdr, datagram, pre, result):
-        if result is True:
+        if accepted(result):
             cn = self.w.conn_name(conn)
             self.last_accept[cn] = self.w.k.now
             self.first_accept.setdefault(cn, self.w.k.now)
